@@ -134,6 +134,29 @@ func cmdVerify(args []string) {
 						}
 					}
 					fmt.Printf("    FAIL [%s] %s  (%s, %s) @%s\n", o.Status, o.Name, o.Kind, o.Backend, w)
+					if os.Getenv("GOVC_CASE") != "" && o.Model != "" {
+						vals := parseGetValue(o.Model)
+						for i, c := range o.Cases {
+							if vals[fmt.Sprintf("case!%d", i)] == "true" {
+								n := len(c.PC)
+								lo := n - 14
+								if lo < 0 {
+									lo = 0
+								}
+								for _, pc := range c.PC[lo:] {
+									if len(pc) > 400 {
+										pc = pc[:400] + "…"
+									}
+									fmt.Printf("        pc: %s\n", pc)
+								}
+								g := c.Goal
+								if len(g) > 1500 {
+									g = g[:1500] + "…"
+								}
+								fmt.Printf("        GOAL: %s\n", g)
+							}
+						}
+					}
 					if os.Getenv("GOVC_MODEL") != "" && o.Model != "" {
 						vals := parseGetValue(o.Model)
 						for _, m := range e.modelTerms {
